@@ -61,6 +61,15 @@ theorem read_footprints_as_modelled :
     ((reads "bake_geometry").all fun a => !(["_energy_init_source", "_energy_exchange_etc", "_distance_patches_to_source",
       "_source", "_speed_of_sound", "_etc_duration", "_etc_time_resolution"].contains a)) = true := by decide
 
+/-- The energy exchange stores only its histogram and the three run parameters: it does not
+    write (assign, element-assign or mutate through a local alias) anything it or a later stage
+    reads — in particular not the initial energies or the baked factors. -/
+theorem exchange_writes_only_its_outputs :
+    writes "calculate_energy_exchange" = ["_energy_exchange_etc", "_etc_duration", "_etc_time_resolution", "_speed_of_sound"] ∧
+    writes "collect_energy_receiver_mono" = [] ∧ writes "collect_energy_receiver_patchwise" = [] ∧
+    writes "calculate_direct_sound" = [] ∧
+    writes "bake_geometry" = ["_form_factors", "_form_factors_tilde", "_patch_2_brdf_outgoing_index", "_visibility_matrix", "_visible_patches"] := by decide
+
 /-- Non-vacuity: a history with two bakes, two cycles, repeated inits and exchanges. -/
 example : run (fresh 6 "G")
     (Hist.ops { setters := [.setBrdf [0, 1, 2, 3, 4, 5] "m", .setAtt "a"], extraBakes := 1,
